@@ -8,10 +8,14 @@ HERE = os.path.dirname(os.path.dirname(os.path.abspath(__file__)))
 SEEDED = os.path.join(HERE, "seeded")
 props = {json.loads(l)["id"]: json.loads(l) for l in open(os.path.join(HERE, "properties.jsonl"))}
 NOT_A_VIOLATION = {  # seeded changes judged not to violate the property as stated (see DESIGN 14.5)
+    "C20-12": "neutralised by repair 4a82cab: the change (a shared default Stopper) only violated the property together with the "
+              "unprotected patience swap of optim_flat, which that repair removed; on its base commit 0a8541a the demo fails, on "
+              "the repaired tree the demo passes with the change applied",
     "C20-6": "not flagged by design: the guard moves from `i > patience` to `i >= patience`, i.e. towards the documented "
              "rule; the check leaves the two boundary iterations open",
 }
 EXTRA = {  # seeded changes that are (also) caught by a different property's check
+    "C02-12": ("C01", "graph:values_equal_spec:assign / outdated_flags_equal_spec:assign (the identical change as C01-13 - an identity shortcut in the value setter; C01's traces re-assign a container that was modified in place)"),
     "C02-10": ("C01", "graph:values_equal_spec:assign (the change is in the value setter's exception path, which C01's histories with a refused value exercise; C02's programs have variable-attached distributions, for which aborted sweeps are not modelled)"),
     "C08-11": ("C03", "update_state::returned_state_is_fully_up_to_date, and C09 real:liesel:derived_quantities_equal_recomputation_from_stored_parameters (the change is in LieselInterface.update_state; C08's engine scenarios use lookup interfaces)"),
     "C01-10": ("C17", "simulate:values_equal_spec / outdated_flags_equal_spec (the change is in Model.simulate, which is not one of C01's operations; C17's plans have direct value-node consumers)"),
